@@ -5,7 +5,6 @@ from vlib import strat as S, oracles as O, groups as GR, sf as SF
 
 ID = "C08"
 SWITCH_OFF = 6        # every 6th case runs with xfab.CHECKS switched off (results must not depend on it)
-TARGETED = True     # thorough tier uses hypothesis.target on the residual/tolerance ratios
 RULE = ("one unit per setting (237, by name); per case a conforming cell (oblique where the system allows), 1-4 atoms at general "
         "positions k/9973, at special positions from the rational grid {0,1/4,1/3,1/2,2/3,3/4}^3 or special in two coordinates, "
         "with symmulti = exact orbit size, shifted by lattice vectors; Uiso / site-symmetrised positive-definite Uani / no ADP; "
